@@ -259,12 +259,17 @@ def discharge_all(obligations, axioms, timeout_ms=10000, seed=0, jobs=8):
     return results
 
 
-def satisfiable(pc, axioms, timeout_ms=5000):
-    s = z3.Solver()
-    s.set("timeout", timeout_ms)
-    for a in axioms:
-        s.add(a)
-    for p in pc:
-        s.add(p)
-    r = s.check()
-    return "sat" if r == z3.sat else "unsat" if r == z3.unsat else "unknown"
+def satisfiable(pc, axioms, timeout_ms=3000):
+    """vacuity check (is the precondition satisfiable?) in a forked child: hard limit, no memory retained here"""
+    def fn():
+        s = z3.Solver()
+        s.set("timeout", timeout_ms)
+        for a in axioms:
+            s.add(a)
+        for p in pc:
+            s.add(p)
+        r = s.check()
+        return ("sat" if r == z3.sat else "unsat" if r == z3.unsat else "unknown"), {}
+
+    res = run_forked([("sat", fn, timeout_ms / 1000.0)], 1, hard_extra_s=1.0)
+    return res.get("sat", ("unknown", {}))[0]
